@@ -612,6 +612,8 @@ class Interp:
                             return VConst('module', sub)
                         raise OutOfSubset('module attribute %s.%s' % (modname, attr))
                     return self.global_value(r)
+                if modname == 'sys' and attr == 'version_info':
+                    return VTuple([VInt(3), VInt(12), VInt(0)])      # the interpreter the repository runs on
                 return VConst('extern', (modname, attr))
             if base.kind == 'extern':
                 return VConst('extern', (base.py[0] + '.' + base.py[1], attr))
@@ -744,12 +746,19 @@ class Interp:
             k = base.key_term(self, idx)
             if k is None:
                 if fr.spec:
-                    raise OutOfSubset('map key of the wrong kind in a contract')
+                    return base.get(self, {'int': VInt(self.path.fresh_int('undef')),
+                                           'str': VStr(self.path.fresh_str('undef')),
+                                           'bytes': VSeq(self.path.fresh_seq('undef'), 'bytes'),
+                                           'val': VOpaque(self.path.fresh_val('undef'))}[base.keykind])
                 raise PyRaise(self.builtin_exc('KeyError', idx))     # a key of another python type is absent
             if not fr.spec:
                 if not self.path.branch(base.has(k), 'key'):
                     raise PyRaise(self.builtin_exc('KeyError', idx))
             return base.get(self, idx)
+        if fr.spec and (base is VNone or isinstance(base, (VInt, VBool, VFloat))):
+            return VInt(self.path.fresh_int('undef'))      # ill-typed sub-term guarded elsewhere in the clause
+        if not fr.spec and (base is VNone or isinstance(base, (VInt, VBool, VFloat))):
+            self.raise_builtin('TypeError', 'object is not subscriptable')
         raise OutOfSubset('index of %r' % (base,))
 
     def dict_get(self, d, key, fr):
